@@ -226,8 +226,8 @@ def run(ctx):
     random.Random(f"{ctx.seed}:C09:order").shuffle(tasks)
     expected = sum(vd.core_size(t) for t in tasks)
     quick = ctx.tier == "quick"
-    n_samples = dict(early=4000, random=1000, wf=6000, big=600, orphan=1500) if quick else \
-        dict(early=120000, random=150000, wf=200000, big=30000, orphan=40000)
+    n_samples = dict(anyfinal=1500, early=4000, random=1000, wf=6000, big=600, orphan=1500) if quick else \
+        dict(anyfinal=40000, early=120000, random=150000, wf=200000, big=30000, orphan=40000)
     reserve = 6 if quick else 30
     deadline = time.time() + ctx.left() - reserve
     sample_share = 0.18          # part of the time budget kept for the sampled streams
